@@ -20,11 +20,11 @@ def primSigVerify (alg : String) (jwk : Json) (msg sig : Bs) : Bool :=
     match Jws.bytesOfJson (jwk.get? "k") with
     | some k => hmacByName h k msg == sig
     | none => false
-  | some (.ecdsa h) =>
+  | some (.ecdsa acrv h) =>
     match hashByName h, jwk.getStr? "crv", Jws.bytesOfJson (jwk.get? "x"), Jws.bytesOfJson (jwk.get? "y") with
     | some hf, some crv, some x, some y =>
       match Jws.crvLen crv with
-      | some len => sig.length == 2 * len && ecValidReal crv x y none &&
+      | some len => crv == acrv && sig.length == 2 * len && ecValidReal crv x y none &&
           ecdsaVerifyReal crv x y (hf msg) (sig.take len) (sig.drop len)
       | none => false
     | _, _, _, _ => false
